@@ -179,8 +179,10 @@ void vf_errfn(const char *message, void *arg, int category)
     if (vf_verbose)
 	fprintf(stdout, "    [errfn cat=%d errno=%d] %s\n", category, e,
 		message ? message : "(null)");
-    if (l == NULL)
+    if (l == NULL) {
+	errno = VF_ERRFN_ERRNO;
 	return;
+    }
     if (l->count < VF_ERRLOG_MAX) {
 	l->category[l->count] = category;
 	l->err_no[l->count] = e;
@@ -192,7 +194,10 @@ void vf_errfn(const char *message, void *arg, int category)
     ++l->count;
     if (category != 4 /* VNAERR_WARNING */)
 	++l->nonwarn;
-    errno = e;
+    /* vnaerr(3): "The library sets errno before calling error_fn and again
+       before returning failure": an application callback may disturb errno
+       (failing log write); leave a value no libvna path produces */
+    errno = VF_ERRFN_ERRNO;
 }
 
 /* splitmix64-based counter generator */
